@@ -247,7 +247,7 @@ func genServer(c *Ctx, v6 bool) *ynode {
 	switch r.Intn(10) {
 	case 0, 1: // absent: defaults
 	case 2:
-		kv = append(kv, "interface", ystr([]string{"eth0", "lo", ""}[r.Intn(3)]))
+		kv = append(kv, "interface", []*ynode{ystr("eth0"), ystr("lo"), ystr(""), yint(7), &ynode{kind: "bool", b: true}, ylist(ystr("eth0")), yraw("2020-01-01"), &ynode{kind: "float", s: "1.5"}}[r.Intn(8)])
 	case 3:
 		if r.Bool() {
 			kv = append(kv, "interface", ystr("eth0"), "listen", ystr(pool[r.Intn(len(pool))]))
